@@ -16,3 +16,32 @@ Theorem C11_file_sizes : forall (W : nat), (2 <= W)%nat -> forall chunks,
     /\ tsizes_ok root = true.
 Proof. exact build_file_ok. Qed.
 Print Assumptions C11_file_sizes.
+
+(* ---- directories ---- *)
+From UV Require Import Hamt.Build Hamt.TrieProofs Hamt.Refine Hamt.SizeProofs Dir.BuildProofs.
+From Coq Require Import Permutation.
+Local Open Scope N_scope.
+
+(* sharded directories, every fanout and every trie: the size serialize returns is the encoded length of every
+   shard block it wrote (root included) plus the sizes supplied for the entries *)
+Theorem C11_sharded_size_is_cumulative : forall size hasher n cs, n = BShard cs ->
+  snd (serialize_node size hasher (pad_len size) n) =
+  shard_bytes size hasher n + nsum (map entry_size (entries_of n)).
+Proof. exact sharded_size_is_cumulative. Qed.
+Print Assumptions C11_sharded_size_is_cumulative.
+
+(* ... and every link written into a shard block carries the cumulative size of its target *)
+Theorem C11_sharded_links_carry_sizes : forall size cs b c, In (b, c) cs ->
+  exists l, In l (map (Refine.link_of size) cs) /\
+    l_target l = match c with BVal e => e_target e | BShard _ => fst (serialize_node size HashMurmur3 (pad_len size) c) end /\
+    l_tsize l = Some (match c with BVal e => e_tsize e | BShard _ => Z.of_N (snd (serialize_node size HashMurmur3 (pad_len size) c)) end).
+Proof. exact sharded_links_carry_sizes. Qed.
+Print Assumptions C11_sharded_links_carry_sizes.
+
+(* plain directories *)
+Theorem C11_plain_directory_sizes : forall entries,
+  snd (build_plain entries) = enc_len (fst (build_plain entries)) + nsum (map entry_size entries)
+  /\ Permutation (map (fun l => (l_target l, l_tsize l)) (match fst (build_plain entries) with Pb _ ls => ls | _ => [] end))
+                 (map (fun e => (e_target e, Some (e_tsize e))) entries).
+Proof. exact plain_size_is_cumulative. Qed.
+Print Assumptions C11_plain_directory_sizes.
